@@ -141,7 +141,7 @@ def make_spec(sk):
 
 
 def compile_skeleton(sk):
-    src = program_text(sk['clauses'])
+    src = sk['source'] if sk.get('source') else program_text(sk['clauses'])     # 'source': a hand-laid-out text of the same clauses
     try:
         code = _compile(src)
         compile(code, 'gen', 'exec')
